@@ -169,6 +169,26 @@ def check(case):
                 raise
             except Exception as e:
                 V('redump-raises', 're-dump of the loaded dump raises %s: %s' % (core.exc_sig(e), str(e)[:100]))
+        # dump after dump: different data dumped into the SAME location must be described by the descriptor found there
+        if cfg.get('overwrite') and cfg['how'] == 'path':
+            dd = os.path.join(d, 'first')
+            other = 'ascii' if case['table'] != 'ascii' else 'multibyte'
+            st2 = dumps.build_state(copy.deepcopy(TABLES[other]))
+            try:
+                core.Flow(core.from_state(st2), core.dataflows.dump_to_path(os.path.join(dd, 'out'), **copy.deepcopy(opts))).process()
+                wd = json.load(open(os.path.join(dd, 'out', 'datapackage.json'), encoding='utf-8'))
+                want = [len(t[2]) for t in TABLES[other]]
+                got = []
+                for r in wd['resources']:
+                    facts = dumps.file_facts(os.path.join(dd, 'out'), r)
+                    got.append(len(dumps.decode_resource(os.path.join(dd, 'out'), r)) if facts else None)
+                if got != want:
+                    V('overwrite-stale', 'after dumping table set %r over an earlier dump of %r in the same directory, datapackage.json '
+                      'describes resources with %r rows; the second dump wrote %r' % (other, case['table'], got, want))
+            except core.CaseTimeout:
+                raise
+            except Exception as e:
+                V('overwrite-raises', 'second dump into the same directory raises %s: %s' % (core.exc_sig(e), str(e)[:100]))
     uniq, seen = [], set()
     for v in viol:
         if v[0] not in seen:
@@ -192,6 +212,8 @@ def cases(tier):
                         out.append({'table': table, 'cfg': {'format': fmt, 'how': how, 'counters': 'renamed', 'filehash': fh, 'pretty': pretty}})
                 out.append({'table': table, 'cfg': {'format': fmt, 'how': how, 'counters': 'default', 'pretty': False}})
             out.append({'table': table, 'cfg': {'format': fmt, 'how': 'path', 'counters': 'default', 'redump': True}})
+            out.append({'table': table, 'cfg': {'format': fmt, 'how': 'path', 'counters': 'default', 'overwrite': True}})
+            out.append({'table': table, 'cfg': {'format': fmt, 'how': 'path', 'counters': 'default', 'overwrite': True, 'filehash': True}})
             out.append({'table': table, 'cfg': {'format': fmt, 'how': 'path', 'counters': 'dotted', 'redump': True}})
     return out
 
